@@ -359,6 +359,48 @@ def run(ctx, anchors=None):
              "the printed address depends on %s: it differs when a leaf is selected for spending" % bad)
     ctx.extra["address_data_dependences"] = sorted(seen)
 
+    # ---- R06.5 the prefix an address starts with is the prefix its checksum covers: in bech32::Encode the term handed to
+    # CreateChecksum as human-readable part occurs, as it is, at the front of the returned string (through concatenation only -
+    # not re-cased, filtered or transformed on one side and not on the other).
+    ctx.rule("R06.5", "bech32::Encode writes the same human-readable part it check-sums")
+    from .. import symx as _sx6
+    enc = [g for g in fb.funcs.values() if g.name == "bech32::Encode" and g.body is not None]
+    if not enc:
+        raise AnalysisBroken("R06.5: bech32::Encode not found")
+    X6 = _sx6.Explorer(prog, inline=lambda fn, n_: False, transparent=lambda n_: True)
+    outs6 = [o for o in X6.explore(enc[0], limit=400) if o.status == "ret" and o.ret is not None]
+
+    def plain_parts(t, depth=0):
+        """terms that make up the string t through concatenation alone"""
+        out = [t]
+        if not isinstance(t, tuple) or depth > 12:
+            return out
+        if t[0] == "lin":
+            for (k_, c_) in t[2]:
+                if c_ == 1:
+                    out += plain_parts(k_, depth + 1)
+        elif t[0] == "ap" and t[1] == "loopvar" and len(t) >= 5:
+            out += plain_parts(t[4], depth + 1)      # the value before the loop; what the loop appends is not "as it is"
+        elif t[0] == "ap" and t[1] in ("mut:reserve", "mut:+=", "mut:append", "mut:push_back", "+", "new:std::basic_string", "mut:insert") and len(t) >= 3:
+            for a_ in t[2:]:
+                out += plain_parts(a_, depth + 1)
+        return out
+    n65 = 0
+    bad65 = None
+    for o in outs6:
+        sums = [e for e in o.events if e.kind == "call" and e.name == "CreateChecksum" and len(e.terms) >= 2]
+        if not sums:
+            continue
+        n65 += 1
+        H = sums[0].terms[1]
+        if H not in plain_parts(o.ret):
+            bad65 = (_sx6.show(H)[:40], _sx6.show(o.ret)[:120])
+    ctx.site(n65)
+    ctx.floor("R06.5", n65, 1, "returning paths of bech32::Encode that compute a checksum")
+    ctx.inst(bad65 is None, "R06.5", "written-prefix-is-the-checksummed-prefix", enc[0].loc(), "the human-readable part handed to CreateChecksum is the front of the returned string",
+             "bech32::Encode check-sums `%s` but returns `%s`, where that term is not written as it is: for a prefix the transformation changes (an upper-case --addrprefix) the address carries a checksum over a different prefix and is invalid"
+             % (bad65 if bad65 else ("", "")))
+
 
 def ctl_init_node(func):
     for n in func.nodes():
@@ -368,6 +410,7 @@ def ctl_init_node(func):
 
 
 MUTANTS = [
+    dict(name="prefix-lowered-after-the-checksum", file="bech32.cpp", find="    std::string ret = hrp + '1';\n", replace="    std::string ret;\n    for (const char& c : hrp) ret += LowerCase(c);\n    ret += '1';\n", expect=["R06.5:written-prefix-is-the-checksummed-prefix"]),
     dict(name="branch-sorts-children-in-place", file="tap.cpp", find="        auto h_l = m_l->m_hash;\n        auto h_r = m_r->m_hash;", replace="        auto& h_l = m_l->m_hash;\n        auto& h_r = m_r->m_hash;", expect=["R06.1:branch-does-not-modify-children"]),
     dict(name="tag-typo-tap", file="tap.cpp", find="HasherTapBranch = TaggedHash(\"TapBranch\")", replace="HasherTapBranch = TaggedHash(\"TapBranches\")", expect=["R06.1:tag=HasherTapBranch"]),
     dict(name="leaf-version-c1", file="tap.cpp", find="hasher << static_cast<uint8_t>(0xc0) << script;", replace="hasher << static_cast<uint8_t>(0xc1) << script;", expect=["R06.1:leaf-stream"]),
